@@ -11,14 +11,14 @@ N_QUICK, N_THOROUGH = 2600, 60000
 STRICT_MODEL = False   # the model fixes the outcome also where the property leaves it open (its two exclusions);
                        # the driver's verdict (split spec run on the implementation's observation) decides
 RULE = ("byte streams built from line tokens over {ASCII, blank, tab, é, 中, 😀, U+FFFD, 14 kinds of invalid UTF-8, CR, LF, NUL, "
-        "SGR/CSI escape sequences} with own-kind / CRLF / other-kind terminators, unterminated last lines, lines longer than "
+        "SGR/CSI escape sequences, lines ending inside an escape sequence} with own-kind / CRLF / other-kind terminators, unterminated last lines, lines longer than "
         "1 KiB / 8 KiB, more lines than the channel bound, plus a raw random-byte stream; x {lib: of_bufread through a BufRead "
         "handing out the stream in chosen slice sizes (1 byte ... 8 KiB), line_ending LF or NUL; cli: sk -f with --read0/--print0} x "
         "{ansi, with-nth, nth, delimiter, query, early-closing consumer}; non-trivial = at least 2 terminator bytes of the "
         "configured kind and at least 4 bytes; distinct by sha1 of the case line")
 ASSUMPTIONS = [
     "String::from_utf8_lossy = one U+FFFD per maximal invalid prefix (Lean lossyImpl; cross-checked on every case, no theorem depends on it)",
-    "under --ansi only `ESC [ params final` sequences and the C0 bytes NUL/TAB/LF/CR are generated; stripAnsiImpl models the ANSI parser for that grammar only (full tokenizer: C16)",
+    "under --ansi only `ESC [ params final` sequences, unterminated `ESC`, `ESC [`, `ESC [ params` at the very end of a line, and the C0 bytes NUL/TAB/LF/CR are generated; stripAnsiImpl models the ANSI parser for that grammar only (full tokenizer: C16)",
     "queries are empty or 1-2 lower-case ASCII letters (verdict = ASCII-case-folded in-order subsequence; matching rules: C03); with --nth/--with-nth only the empty query",
     "crossbeam bounded channel is FIFO and lossless; the OS pipe delivers bytes in order",
 ]
@@ -30,6 +30,7 @@ LETTERS = ["61", "62", "78", "41", "5a", "20", "09", "2c", "3a", "3b"]
 MULTI = ["c3a9", "e4b8ad", "f09f9880", "efbfbd"]
 INVALID = ["c328", "80", "bf", "ff", "c3", "e4b8", "f09f98", "eda080", "c0af", "f4908080", "e08080", "fe", "e4b8e4b8ad", "f0"]
 ESCS = ["1b5b33316d", "1b5b6d", "1b5b303b316d", "1b5b324b", "1b5b33383b353b3230306d", "1b5b34383b323b313b323b336d", "1b5b306d"]
+ESC_TAILS = ["1b", "1b5b", "1b5b33", "1b5b33313b", "1b5b33383b35"]   # unterminated sequences, only ever placed at the end of a line
 TERMS_OTHER = {10: ["00", "0d", "0d0d", "000d", "0d00"], 0: ["0a", "0d", "0d0a", "0a0d", "0d0d0a"]}
 READS = [1, 1, 2, 3, 5, 8, 13, 64, 1023, 1024, 1025, 4096, 8192]
 FIELDS = ["1", "2", "2..", "..2", "-1", "1,3", "3..", "-2..", "1..", "..", "2,1", "2,2", "1,1", "3,1,2", "2,1,3", "-1,1"]
@@ -70,6 +71,12 @@ def gen_stream(rng, term, tier, esc_ok):
         if n < 100 and rng.random() < 0.04:
             # a long line: longer than the channel/read constants
             ln = rng.choice([1023, 1024, 1025, 2500, 8191, 8192, 8193, 20000 if tier != "quick" else 9000])
+            if rng.random() < 0.5:
+                # the long run follows a byte that is the other mode's terminator (a record with an embedded newline
+                # followed by more than a stdout buffer of bytes, under --read0)
+                if rng.random() < 0.5:
+                    toks.append(word(rng, False) or "61")
+                toks.append(rng.choice(others))
             toks.append((rng.choice(LETTERS) * ln)[: 2 * ln])
         else:
             w = word(rng, esc_ok)
@@ -81,6 +88,8 @@ def gen_stream(rng, term, tier, esc_ok):
                 w = word(rng, esc_ok)
                 if w:
                     toks.append(w)
+        if esc_ok and rng.random() < 0.1:
+            toks.append(rng.choice(ESC_TAILS))        # the line ends inside an escape sequence
         last = i == n - 1
         if last and rng.random() < 0.45:
             if rng.random() < 0.5:
@@ -190,7 +199,8 @@ def histogram_keys(case):
 
 
 KNOWN_ANSI_WITHNTH = "C06-ansi-withnth-uncoloured-sequences-printed-raw"
-_CSI = re.compile(rb"\x1b\[[0-?]*[ -/]*[@-~]")
+# complete CSI sequences, and an unterminated `ESC` / `ESC [ params` at the very end of the line / record (it sets no attribute either)
+_CSI = re.compile(rb"\x1b\[[0-?]*[ -/]*[@-~]|\x1b(\[[0-?]*[ -/]*)?(?=[\x00\n\r\t]|$)")
 
 
 def _unhex(x):
@@ -215,6 +225,10 @@ def classify(r):
             if rci != rcm:
                 return None
             impl, model = [_unhex(oi)], [_unhex(om)]
+            if f[9] != "_":
+                # early-closing consumer: both outputs are cut after `close` bytes (possibly inside a sequence that was left in)
+                st = _CSI.sub(b"", impl[0])
+                return KNOWN_ANSI_WITHNTH if impl != model and model[0].startswith(st) else None
         if len(impl) == len(model) and impl != model and all(_CSI.sub(b"", i) == m for i, m in zip(impl, model)):
             return KNOWN_ANSI_WITHNTH
     except Exception:
